@@ -22,6 +22,9 @@ type xzBlockM struct {
 	// as this unsigned integer; PropSizeV replaces the one-byte "size of properties" by a multi-byte
 	// integer while still one property byte follows
 	CompV, UncompV, PropSizeV uint64
+	// Overrun: the header keeps its length, announces a compressed-size field, and every byte after
+	// the flags has its continuation bit set: the field runs past the end of the header
+	Overrun bool
 	Data                      []byte
 	Pad                       []byte
 	Check                     []byte
@@ -116,6 +119,12 @@ func (b *xzBlockM) header() []byte {
 	h = append(h, b.HdrPad...)
 	for len(h)%4 != 0 {
 		h = append(h, 0)
+	}
+	if b.Overrun {
+		h[1] = 0x40
+		for i := 2; i < len(h); i++ {
+			h[i] = 0x80
+		}
 	}
 	h[0] = byte((len(h)+4)/4 - 1 + b.HdrSizeDelta)
 	return binary.LittleEndian.AppendUint32(h, crc32.ChecksumIEEE(h))
@@ -338,6 +347,7 @@ func structEdits(nb int) []StructEdit {
 			v := v
 			add(fmt.Sprintf("block%d.filter-propsize=%#x", bi, v), true, func(m *xzModel) bool { blk(m).PropSizeV = v; blk(m).HdrPad = nil; return true })
 		}
+		add(fmt.Sprintf("block%d.header-field-runs-past-the-header", bi), true, func(m *xzModel) bool { blk(m).Overrun = true; return true })
 		// filter ids that agree with the LZMA2 id 0x21 in their low bits only
 		for _, id := range []uint64{0x121, 0x2121, 0x10021, 1<<32 | 0x21, 1<<56 | 0x21, 1<<63 | 0x21} {
 			id := id
